@@ -258,9 +258,12 @@ package chain
 //@ func (*Processor).verifySignatures
 //@   trusted
 //@   noframe
-//@ func (*Processor).waitSignatures
-//@   trusted
+//@ func github.com/ava-labs/hypersdk/internal/workers.Job.Wait
+//@   pure
+// waitSignatures (C16): succeeds exactly when the signature job reports no failure
+//@ func (*Processor).waitSignatures props C16
 //@   noframe
+//@   ensures (err == nil) == (workers.Job.Wait(sigJob) == nil)
 //@ func (*Processor).executeTxs
 //@   trusted
 //@   noframe
@@ -274,8 +277,11 @@ package chain
 // Processor.Execute (C11): every successful verification is dominated by the height / timestamp
 // checks against the PARENT VIEW's metadata and by the state-root comparison with the parent view's
 // root (whatever signature verification, replay protection and transaction execution do).
-//@ func (*Processor).Execute props C11
+//@ func (*Processor).Execute props C11 C16
 //@   noframe
+// C16: the output view is only created -- and so success only returned -- after the signature job
+// started for this block reported that every verification task succeeded
+//@   at call 15 assert @C16 workers.Job.Wait(sigJob) == nil
 //@   reveal wellFormed
 //@   let r = RuleFactory.GetRules(p.ruleFactory, b.StatelessBlock.Tmstmp)
 //@   let hk = HeightKey(MetadataManager.HeightPrefix(p.metadataManager))
